@@ -13,12 +13,12 @@ import os, argparse, random, re, sys, itertools
 SCHEMES = ['http','https','ws','wss','ftp','file','non-spec','x','a+b-c.d','HTTP','hTtPs','FILE','htt','httpss','fil','blob','mailto','','1ab','h ttp','wS','FtP']
 AFTER = ['//','//','//','/','','\\\\','\\/','///','////','/\\']
 USER = ['','','','u@','u:p@','user:pw@',':pw@',':@','@','a@b@','u:p:q@','us/er@','u?@','u#@','\u00fcser:p\u00e4ss@','%41:%42@','u%@','[u]@',"u;=@",'u\\@']
-LABELS = ['a'*63,'a'*64,'a'*70,'xn--'+'a'*60,'h','host','example','EXAMPLE','ex-ample','a--b','ab--c','-a','a-','xn--exmple-cua','XN--EXMPLE-CUA','xn--','xn--a','\u00e4','b\u00fccher','\u05d0','\u05d0a','1\u05d0','a\u200d','\u0628\u200d','\u0645\u0660','\uff41','\u00df','\u03c2','%41','%c3%a4','%e4','a%','%zz','\u00ad','a\u0338','<\u0338','=\u0338','>\u0338','<%CC%B8','a_b','a~b','a!b',"a'b",'a*b','0','1','08','0x','0x1f','0XAB','4294967295','4294967296','256','255','999999999999','00000000001','0x100000000','1e3','a\u0301','\U0001f600','xn--80ak6aa92e','xn--nxasmq6b','faß','\u200c','a\u200cb','\u0644\u200c\u0627','%F0%9F%92%A9','%80','\ufffd']
+LABELS = [str((1 << 64) + 1), '0x%x' % ((1 << 64) + 1), '0%o' % ((1 << 64) + 5), '0x3000000000000007f000001', str((1 << 32) + 1), '0x%x' % ((1 << 32) * 7 + 9), 'a'*63,'a'*64,'a'*70,'xn--'+'a'*60,'h','host','example','EXAMPLE','ex-ample','a--b','ab--c','-a','a-','xn--exmple-cua','XN--EXMPLE-CUA','xn--','xn--a','\u00e4','b\u00fccher','\u05d0','\u05d0a','1\u05d0','a\u200d','\u0628\u200d','\u0645\u0660','\uff41','\u00df','\u03c2','%41','%c3%a4','%e4','a%','%zz','\u00ad','a\u0338','<\u0338','=\u0338','>\u0338','<%CC%B8','a_b','a~b','a!b',"a'b",'a*b','0','1','08','0x','0x1f','0XAB','4294967295','4294967296','256','255','999999999999','00000000001','0x100000000','1e3','a\u0301','\U0001f600','xn--80ak6aa92e','xn--nxasmq6b','faß','\u200c','a\u200cb','\u0644\u200c\u0627','%F0%9F%92%A9','%80','\ufffd']
 TLDS = ['xn--2da','\u0105','%2Ecom','com','org','de','','\u3002jp','\uff0ecom','.','0','1','0x7f','09','0x','1.','COM']
 IPV4 = ['1.2.3.4.5.6.7','1.2.3.4.5.6.7.8.9.','\u0131.2.3.4','1.2.3.\u0134','0x\u0141','0\u0178f.1','1\u012e2.3.4','1.2.3.4','127.1','0x7f.1','0177.0.0.1','1.2.3','1.2.3.4.','1.2.3.4.5','1..2','256.1.1.1','1.256.1.1','1.1.1.256','1.1.256','1.1.65535','1.1.65536','1.16777215','1.16777216','4294967295','4294967296','0xffffffff','0x100000000','08','09.1','0x','0x.1','1.0x','00000000000000000001','077777777777','037777777777','040000000000','1.2.3.08','1.2.3.4x','0x1g','.1','1.','a.1','0xx','0x1x','1x','x','0X1.0x2.0X3.4','1.2.0x','0.0.0.0','255.255.255.255','0x7F000001','017700000001','1.2.3.4..','..','1.2.3.0x100','1.2.65536','0.0.0.256']
 IPV6 = ['[\u0131::1]','[1::\u0162]','[\uff41::]','[::\U00010041]','[1:\u0132:3::]','[::1.\u0132.3.4]','[::]','[::1]','[1::]','[1:2:3:4:5:6:7:8]','[1:2:3:4:5:6:7::]','[::2:3:4:5:6:7:8]','[1::8]','[1:0:0:2:0:0:0:3]','[0:0:1:0:0:1:0:0]','[1:0:0:0:1:0:0:1]','[::1.2.3.4]','[::ffff:1.2.3.4]','[1:2:3:4:5:6:1.2.3.4]','[1:2:3:4:5:6:7:1.2.3.4]','[::1.2.3]','[::1.2.3.4.5]','[::01.2.3.4]','[::256.1.1.1]','[::1.2.3.4','[1:2:3:4:5:6:7:8:9]','[1::2::3]','[:1]','[1:]','[12345::]','[g::]','[::1]x','[FFFF:AbCd::0001]','[0:0:0:0:0:0:0:0]','[1:2:3:4:5:6:7]','[::.1.2.3]','[1:2:3:4:5:6::1.2.3.4]','[::1.2.3.4:5]','[::0.0.0.0]','[::255.255.255.255]','[0:1:0:1:0:1:0:1]','[1:0:0:1:0:0:0:0]','[]','[:]','[:::]','[1:2:3:4:5:6:7:8::]','[::1:2:3:4:5:6:7:8]','[1:2:3:4::5:6:7:8]','[1::2:3:4:5:6:7]','[0::0]','[::00001]','[::1.2.3.4.]','[::1.2..3]','[1:2:3:4:5:1.2.3.4]','[::10.0.0.1]','[::1.02.3.4]','[::1.2.3.300]']
 BADHOST = ['a b','a<b','a>b','a^b','a|b','a\\b','a[b','a]b','a@b','a:b','a%00b','a\x7fb','a\x01b','a%7fb','a%20b','a#b','a?b','a/b','[a',']',' ','%','a\tb','a%25b','a%2Fb','a%3Ab']
-PORTS = ['','','','',':',':80',':443',':21',':0',':8080',':65535',':65536',':00080',':000000080',':0000065535',':99999',':100000',':8x',':x',':-1',':80 ',':\uff10',':00000',':065536',':1\t2']
+PORTS = ['','','','',':',':80',':443',':21',':0',':8080',':65535',':65536',':00080',':000000080',':0000065535',':99999',':100000',':8x',':x',':-1',':80 ',':\uff10',':00000',':065536',':1\t2',':65616',':4294967376',':4294967297',':18446744073709551696',':131072',':' + '0' * 30 + '81']
 SEGS = ['a','b','c','.','..','%2e','%2E','.%2e','%2e.','%2E%2e','%2e%2E','.%2E','...','','x y','C:','C|','c|','d:','\u00e4','%','%g1','?','a;b',"a'b",'a`b','{x}','a\\b','a%5Cb','~','\x7f','a\x01','%00','\U0001f600','^','|','a|b','%7C','C%7C','%2e%2e%2e','.%2e.','\u0080','\u07ff','\u0800','\ud7ff','\ue000','\uffff','\U00010000','\U0010ffff']
 QUERIES = ['','','?','?q','?a=b&c=d',"?it's",'?a b','?"x"','?<>','?\u00e4=\u00f6','?%zz','?a#b','??','?\x7f','?`{}','?%27','?a=1&a=2&b','?+&=%26','?\U0001f600']
 FRAGS = ['','','#','#f','#a b','#`x`','#"<>"','#\u00e4','#%zz','##','#a#b','#\x00x','#{}','#\U0001f600','#\x7f']
@@ -27,13 +27,17 @@ STARTS = ['file://C:/x','file://c|/d','a:/.//p','web+demo:/a/..//b/c','http://u:
 NAMES = ['a','b','z','aa','A','\u00e4','\ue000','\uffff','\U00010000','\U0001f600','\U0001f601','\U0001f3ff','\U0001f400','\ufb00','\ud7ff','','a b','a+b','a&b','a=b','%41','~','*','ab','abc','abd','\u007f','\u0080','\u07ff','\u0800','\U0010ffff','\ufffd']
 VALUES = ['','1','x y','a&b=c','%41','+','\u00e4','\U0001f600','v','=','?','#']
 SETTERS = ['href','protocol','username','password','host','hostname','port','pathname','search','hash']
+GETTERS = ['href','protocol','username','password','host','hostname','port','pathname','search','hash','path']
+# numbers that are in range only modulo a machine word: 2^k + v (an accumulator that is range-checked too late,
+# or in too narrow a type, accepts them)
+WRAPV = [(1 << k) + v for k in (8, 16, 32, 64) for v in (0, 1, 4, 80, 255)] + [(1 << 32) * 3 + 3, (1 << 32) * 10 + 250, (1 << 31) + 1, (1 << 63) + 1]
 SETVALS = {
  'protocol': ['http','https','file','ws','ftp','non-spec','x','HTTP:','https:','file:','a+b:','1a','','h ttp','http:80','ws:','wss','FILE','non-spec:','http\t','ht\ntp','mailto','blob:','a:b'],
  'username': ['','u','user name','a@b','a:b','a/b','\u00e4','%41','%','u?#','\U0001f600','[x]','\\','^|',"'", '\t', 'a\nb'],
  'password': ['','p','p w','a@b:c','/','\u00f6','%zz','?#','`{}','\x7f'],
  'host': ['','h','host:81','h:80','h:443','h:','h:x','h:65536','EXAMPLE.com','b\u00fccher.de','1.2.3.4','0x7f.1','[::1]','[::1]:8','[1::2','a b','a%41','%','h/p','h?q','h#f','h\\p',':80','localhost','LOCALHOST','x:99999','h:00080','xn--a','a..b','\t h','h\n:8\t1','1.2.3.4.5','a<b','\u3002','h@i','u:p@h','C:','C|','.'],
  'hostname': ['','h','host:81','EXAMPLE.com','1.2.3.4','[::1]','a b','h/p','h?q','h#f','localhost','x:','C|','..','%00','h:8','[::1]:8'],
- 'port': ['','0','80','443','21','8080','65535','65536','99999','000080','0000000000080','8x','x','-1',' 80','80 ','8\t0','\n','\r','80/x','80?x','80#x','80\\x','\uff18','00000'],
+ 'port': ['','0','80','443','21','8080','65535','65536','99999','000080','0000000000080','8x','x','-1',' 80','80 ','8\t0','\n','\r','80/x','80?x','80#x','80\\x','\uff18','00000'] + [str(w) for w in WRAPV] + ['0' * 30 + '81', '9' * 30],
  'pathname': ['','/','/a','a','a/b','/a/./b/../c','..','/..','/%2e%2E/x','\\a\\b','/a b','/a?b','/a#b','/\u00e4','//x','//','/.//x','/C|/x','C:','/C:/..','/a/%2e','/a/.','/a/..','?','#','/%','\t/a\n','/a/../../..','.','/./','x\\..\\y','/\U0001f600','/a|b^c'],
  'search': ['','?','q','?q','??q','a=b&c=d','?a b',"?'",'#','?#','\u00e4','%zz','\n?a','?\ta','? ','a#b','\U0001f600','?+&='],
  'hash': ['','#','f','#f','##f','a b','`','\u00e4','%zz','\n#a','#\ta','# ','"<>','\x00'],
@@ -216,10 +220,18 @@ class Gen:
             st = self.pick(SETTERS if self.r.randrange(8) else ['protocol', 'host', 'port', 'pathname'])
             self.stat('setter:' + st)
             self.emit('set 0 %s %s' % (st, self.arg(self.setval(st))))
-            x = self.r.randrange(12)
+            x = self.r.randrange(14)
             if x == 0: self.emit('probe 0')
             elif x == 1: self.emit('parse 1 %s s0' % self.arg(self.pick(RELS)))
             elif x == 2: self.emit('sp 0 get')
+            elif x == 3:
+                # self-referential argument: a view of the object's own storage
+                self.stat('alias:aset')
+                self.emit('aset 0 %s %s' % (self.pick(SETTERS), self.pick(GETTERS)))
+            elif x == 4:
+                self.stat('alias:parse')
+                if self.r.randrange(2): self.emit('aparse 0')
+                else: self.emit('aparseb 0 %s' % self.arg(self.pick(RELS)))
 
     def sp_op(self, slot, kind='sp'):
         o = self.pick(['append', 'append', 'set', 'del', 'del2', 'remove', 'remove2', 'has', 'has2', 'getv', 'getall', 'sort', 'sort', 'clear', 'parse', 'size', 'str'] + (['get'] if kind == 'sp' else []))
@@ -307,8 +319,12 @@ class Gen:
                 self.emit('psp 1 fromurl %d' % a)
                 self.emit('psp 1 append %s %s' % (self.arg('det'), self.arg('ached')))
                 self.emit('dump %d' % a)
-            else:
+            elif x < 97:
                 self.emit('probe %d' % a)
+            else:
+                self.stat('alias:obj')
+                self.emit(self.pick(['aset %d %s %s' % (a, self.pick(SETTERS), self.pick(GETTERS)), 'aparse %d' % a, 'aparseb %d %s' % (a, self.arg(self.pick(RELS))),
+                                     'parse %d %s s%d' % (a, self.arg(self.pick(RELS)), a), 'sp %d aparse %s' % (a, self.arg(self.pick(['a', 'q', 'next', 'x'])))]))
         self.emit('dump 0'); self.emit('dump 1')
         if self.r.randrange(3) == 0: self.emit('probe %d' % self.r.randrange(2))
 
@@ -336,6 +352,12 @@ class Gen:
             self.emit('psp 0 sort')
         if self.r.randrange(3) == 0:
             self.emit('psp 1 copy 0'); self.emit(self.sp_op(1, 'psp')); self.emit('psp 0 size')
+        if self.r.randrange(6) == 0:
+            # arguments that are views of the list's own names / values
+            self.stat('alias:psp')
+            if self.r.randrange(2): self.emit('psp 0 append %s %s' % (self.arg('next'), self.arg(self.pick(['a=1&b=2', 'next=x%26y&z', '', 'k=' + 'v' * 40 + '&a=b&c=d&e=f']))))
+            self.emit('psp 0 %s' % self.pick(['aparse %s' % self.arg(self.pick(['next', 'a', 'q', 'b'])), 'aappend', 'aset']))
+            self.emit('psp 0 sort')
         if self.r.randrange(5) == 0:
             # a list known to be sorted receives an UNSORTED list from another object, then is sorted: every
             # cached fact about the old list must have gone with it
@@ -415,7 +437,17 @@ class Gen:
                 else: us += self.pick(bad)
             return us
         x = self.r.randrange(100)
-        if x < 25:
+        if x < 8 and e != 8:
+            # a whole URL (or setter value) in which ONE character, at any position — scheme letter, delimiter, digit,
+            # drive letter, hex digit — is replaced by a wide unit with the same low byte
+            t = self.pick(STARTS + ['http://example.org/a?b#c', 'file:///c:/x/../y', 'HTTP://H:80/', 'ws://[1::a]:81/', 'http://0x7f.1/', 'http://h/%41%e4'])
+            i = self.r.randrange(len(t)); t = t[:i] + alias(t[i], self.pick(ALIAS_OFFSETS if e == 32 else ALIAS_OFFSETS[:4])) + t[i+1:]
+            self.stat('enc:alias-anywhere')
+            if self.r.randrange(3): self.emit('parse 0 %d %s %s' % (e, U(units(t, e)), self.pick(['-', '-', 't8:' + U(units('http://example.org/foo/bar', 8)), 't8:' + U(units('file:///C:/dir/file', 8))])))
+            else:
+                self.emit('parse 0 %s -' % self.arg('https://u:p@h:81/a/b?q#f'))
+                self.emit('set 0 %s %d %s' % (self.pick(['href', 'protocol', 'host', 'pathname', 'port']), e, U(units(t, e))))
+        elif x < 25:
             pre = self.pick(['http://h/', 'http://h/?', 'http://h/#', 'http://', 'non-spec:', 'non-spec://', 'http://u', 'file:///', 'http://h/p?q#'])
             suf = self.pick(['', '/', '@h/', '#', '?x'])
             self.emit('parse 0 %d %s -' % (e, U(units(pre, e) + noisy() + units(suf, e))))
@@ -508,6 +540,23 @@ class Gen:
         self.emit('parse 0 %d %s -' % (e, U(units(c['href'], e))))
         self.emit('set 0 %s %d %s' % (st, e, U(units(c['new_value'], e))))
         return True
+    def s_alias_exh(self, k):
+        """C03 / C04 / C05: every setter x every getter of the SAME object as argument (a view of the storage the setter
+        edits in place), on start URLs where the part written is the last stored part, a middle part, a never-started
+        part, and long enough that the edit reallocates; then parse(own href) and parse(relative, base = itself)"""
+        starts = ['http://u:p@h:81/a/b?q=1#frag', 'non-spec:opaque  ?q#f', 'file:///C:/x/y', 'non-spec://h/p?q', 'http://h/p#f%20 x', 'http://h/?a b',
+                  'http://h/?' + 'abcdefghijklmnopqrstuvwxyz0123456789' * 2, 'https://' + 'h' * 40 + '.example/' + 'p' * 40, 'non-spec:/.//p', 'ws://h', 'blob:http://h/x#f',
+                  'http://h/a/../b?x#' + 'f' * 50]
+        n = len(SETTERS) * len(GETTERS)
+        if k >= len(starts) * (n + 2): return False
+        u = starts[k // (n + 2)]; j = k % (n + 2)
+        self.emit('case')
+        self.emit('parse 0 8 %s -' % U(units(u, 8)))
+        if j < n: self.emit('aset 0 %s %s' % (SETTERS[j // len(GETTERS)], GETTERS[j % len(GETTERS)]))
+        elif j == n: self.emit('aparse 0')
+        else: self.emit('aparseb 0 8 %s' % U(units('../x?y', 8)))
+        self.emit('set 0 hash 8 %s' % U(units('z', 8)))
+        return True
     def s_enc_exh(self, k):
         """C10: all byte strings of length <= 3 over a 20-byte alphabet covering every lead/trail class"""
         alpha = [0x41, 0x7F, 0x80, 0x8F, 0x90, 0x9F, 0xA0, 0xBF, 0xC1, 0xC2, 0xDF, 0xE0, 0xE1, 0xED, 0xEF, 0xF0, 0xF1, 0xF4, 0xF5, 0xFF]
@@ -526,7 +575,7 @@ class Gen:
         elif x < 60: s = self.mutate(self.pick(IPV4))
         elif x < 85:
             def num():
-                v = self.pick([0, 1, 7, 8, 9, 255, 256, 65535, 65536, 2**24 - 1, 2**24, 2**32 - 1, 2**32, 2**32 + 1, 2**64 - 1, 2**64, 2**64 + 1, self.r.randrange(2**32)])
+                v = self.pick([0, 1, 7, 8, 9, 255, 256, 65535, 65536, 2**24 - 1, 2**24, 2**32 - 1, 2**32, 2**32 + 1, 2**64 - 1, 2**64, 2**64 + 1, self.r.randrange(2**32)] + WRAPV)
                 f = self.pick(['%d', '0x%x', '0X%X', '0%o'])
                 z = '0' * self.pick([0, 0, 0, 1, 2, 5, 11, 20])
                 t = f % v
@@ -568,6 +617,14 @@ class Gen:
             if self.r.randrange(3) == 0:
                 i = self.r.randrange(len(s) + 1); s = s[:i] + '::' + s[i:]
             if self.r.randrange(4) == 0: s += self.pick([':1.2.3.4', '.1', ':1.2.3', ':256.0.0.1', ':01.2.3.4', ':1.2.3.4.5', ':1.2.3.4:'])
+        elif x < 92:
+            # a number that wraps: as a part of the embedded IPv4 address (any position) or as a hex piece
+            w = self.pick(WRAPV)
+            if self.r.randrange(3):
+                parts = ['1', '2', '3', '4']; parts[self.r.randrange(4)] = str(w)
+                s = self.pick(['::', '::ffff:', '1:2:3:4:5:6:', '1::']) + '.'.join(parts)
+            else:
+                s = self.pick(['::%x', '1:%x::', '%x::1', '1:2:3:4:5:6:7:%x']) % w
         else:
             s = ''.join(self.pick('01f:.g') for _ in range(self.r.randrange(0, 12)))
         if s and self.r.randrange(8) == 0:
@@ -628,11 +685,15 @@ class Gen:
         if x < 30:
             p = '/' + '/'.join(self.pick(segs) for _ in range(self.r.randrange(0, 5)))
             if self.r.randrange(8) == 0: p = p[1:]
+            if self.r.randrange(6) == 0: p = p[:self.r.randrange(0, len(p) + 1)]
             self.emit('frompath posix %s' % self.arg(p))
             self.stat('file:posix')
         elif x < 60:
             pre = self.pick(['C:\\', 'c:/', 'C|\\', 'C:', '\\\\host\\share\\', '\\\\host\\share', '//host/share/', '\\\\?\\C:\\', '\\\\.\\C:\\', '\\\\?\\UNC\\host\\share\\', '\\\\?\\unc\\h\\s\\', '\\\\.\\UNC\\h\\s', '\\\\?\\', '\\\\.\\', '\\\\?\\x', '\\\\h', '\\\\h\\', '\\\\h\\.', '\\\\h\\..', '\\\\.\\s', '\\\\?\\s\\x', '\\\\C:\\s\\x', '\\\\h\x00\\s', '\\\\h\\s\x00', '\\', 'C', '1:\\', '\\\\\\h\\s'])
             p = pre + self.pick(['\\', '/'] ).join(self.pick(segs) for _ in range(self.r.randrange(0, 4)))
+            # every prefix of a path is a path: the scanner's look-ahead at the very end of the (unterminated,
+            # exactly sized) buffer
+            if self.r.randrange(4) == 0: p = p[:self.r.randrange(0, len(p) + 1)]
             self.emit('frompath windows %s' % self.arg(p))
             self.stat('file:windows')
         else:
@@ -650,6 +711,23 @@ class Gen:
         # (frompath prints the URL; topath needs a slot, so repeat through parse of the href on the model side is not
         # possible here; the dedicated round-trip stream below covers it)
 
+    def s_file_pfx(self, k):
+        """C04 / C17: EVERY prefix of key path strings, both formats: each look-ahead of the path scanners is taken at
+        the very end of an exactly sized, unterminated buffer"""
+        keys = ['\\\\?\\UNC\\host\\share\\x', '\\\\.\\unc\\h\\s', '//?/UNC/h/s/', '\\\\?\\C:\\dir\\..\\x', '\\\\.\\c|\\x', '\\\\host\\share\\a\\..\\b',
+                '//host/share/..', 'C:\\dir\\.\\..\\x y', 'c|/a/../..', '\\\\localhost\\C:\\x', '\\\\h\\s\\%41%', '/usr/../lib/./x%2', '/a/..', '/..', '/%2e%2E/', '\\\\?\\', '\\\\?\\UNC\\', '\\\\?\\UNC\\h', '\\\\?\\UNC\\h\\']
+        tot = 0
+        for key in keys:
+            n = len(key) + 1
+            if k < tot + 2 * n:
+                j = k - tot
+                p = key[:j % n]
+                fmt = 'windows' if j < n else 'posix'
+                e = (8, 16, 32)[(k + self.seed) % 3]
+                self.emit('frompath %s %d %s' % (fmt, e, U(units(p, e))))
+                return True
+            tot += 2 * n
+        return False
     def s_file_rt(self):
         """C17 round trip: path -> URL (through the href setter) -> path -> URL -> path"""
         self.emit('case')
@@ -707,7 +785,7 @@ EXH = {
     'hostascii': lambda g, k, a: g.s_hostascii(k), 'encexh': lambda g, k, a: g.s_enc_exh(k),
     'ipv4exh': lambda g, k, a: g.s_ipv4_exh(k, a or 4), 'ipv6exh': lambda g, k, a: g.s_ipv6_exh(k, a or 5),
     'pctexh': lambda g, k, a: g.s_pct_exh(k), 'member': lambda g, k, a: g.s_member(k), 'setexh': lambda g, k, a: g.s_set_exh(k, a),
-    'wpt': lambda g, k, a: g.s_wpt(k), 'wptset': lambda g, k, a: g.s_wptset(k), 'wptform': lambda g, k, a: g.s_wptform(k),
+    'wpt': lambda g, k, a: g.s_wpt(k), 'wptset': lambda g, k, a: g.s_wptset(k), 'wptform': lambda g, k, a: g.s_wptform(k), 'filepfx': lambda g, k, a: g.s_file_pfx(k), 'aliasexh': lambda g, k, a: g.s_alias_exh(k),
     'ipv6serexh': lambda g, k, a: (g.s_ipv6ser(k), k < 256 * 5 - 1)[1],
 }
 
